@@ -41,9 +41,11 @@ def exec_number(rec):
                 per = DC.period_of(rec['mesh'])
                 if rec.get('via') == 'dofs':
                     return DC.number_event(mesh, elem, Dofs(mesh, elem), None, rec.get('drift', 0), period=per)
-                b = CellBasis(mesh, elem, intorder=rec.get('intorder', 1))
+                with DC.LogCapture() as cap:
+                    b = CellBasis(mesh, elem, intorder=rec.get('intorder', 1))
+            warned = any('DOF locations' in r for r in cap.records)
             return DC.number_event(mesh, elem, b, getattr(b, 'doflocs', None), rec.get('drift', 0), with_locs=True,
-                                   period=per)
+                                   period=per, orient=DC.orientable(mesh, rec['mesh']), warned=warned)
         if merr:
             ev, err = None, merr
         else:
@@ -113,6 +115,8 @@ def execute(rec):
         return exec_number(rec)
     if rec['driver'] == 'matrix':
         return exec_matrix(rec)
+    if rec['driver'] == 'compbasis':
+        return exec_compbasis(rec)
     return []
 
 
@@ -121,6 +125,9 @@ def scenario(sid, rec):
     if rec['driver'] == 'matrix':
         tags['elem'] = DC.label(rec['test']) + ' x ' + DC.label(rec['trial'])
         tags['sub'] = rec['sub']['mode']
+    if rec['driver'] == 'compbasis':
+        tags['elem'] = ' | '.join(DC.label(p['elem']) + ':' + p.get('basis', 'cell') for p in rec['parts'])
+        tags['how'] = rec['how'] + ('/equal_dofnum' if rec['equal'] else '')
     return {'id': sid, 'recipe': rec, 'tags': tags, 'events': execute(rec)}
 
 
@@ -194,6 +201,146 @@ CROSS = {
 }
 
 
+S_ = lambda kind, n, e, f, i: {'syn': {'kind': kind, 'sig': {'n': n, 'e': e, 'f': f, 'i': i}}}
+DIRECTED_ELEMS = {
+    'line': [DC.C('ElementLineP2'), DC.C('ElementLinePp', 4), S_('line', 1, 0, 0, 2)],
+    'tri': [DC.C('ElementTriP3'), DC.C('ElementTriP4'), DC.C('ElementTriRT2'), DC.C('ElementTriN2'), DC.C('ElementTriBDM1'),
+            DC.C('ElementTriP2'), DC.C('ElementTri15ParamPlate'), {'vec': DC.C('ElementTriP3')},
+            {'comp': [DC.C('ElementTriP3'), DC.C('ElementTriP1')]}, S_('tri', 1, 0, 2, 1), S_('tri', 0, 0, 3, 2)],
+    'quad': [DC.C('ElementQuad2'), DC.C('ElementQuadS2'), S_('quad', 1, 0, 1, 1)],
+    'tet': [DC.C('ElementTetP2'), DC.C('ElementTetCCR'), DC.C('ElementTetN1'), S_('tet', 1, 2, 3, 1)],
+    'hex': [DC.C('ElementHex2'), S_('hex', 1, 1, 1, 1)],
+}
+
+
+def history_meshes(thorough):
+    """(family, recipe) of meshes reached through operation histories (harness/meshops.py): adaptive refinement with
+    marked cells, adaptive + uniform, restrict, mirrored, m + translated copy, to_meshtri / to_meshtet, oriented."""
+    H = lambda kind, start, ops: {'kind': kind, 'start': dict(start, kind=start.get('kind', kind)), 'ops': ops, 'touch': []}
+    D = {'init': 'default'}
+    T2 = {'init': 'tensor', 'axes': [[0, 1, 2], [0, 1]]}
+    hs = [
+        ('hist', H('tri', D, [['refined', 1], ['refined_marked', [0, 3]]])),
+        ('hist', H('tri', D, [['refined_marked', [0]], ['refined_marked', [1, 2]], ['refined', 1]])),
+        ('hist', H('tri', {'init': 'sqsymmetric'}, [['refined_marked', [0, 5]], ['refined_marked', [2, 3, 7]]])),
+        ('hist', H('tri', D, [['refined', 1], ['mirrored', 0], ['refined_marked', [2, 9]]])),
+        ('hist', H('tri', D, [['refined', 1], ['plus_translated', 0, 1.0], ['refined_marked', [1]]])),
+        ('hist', H('tri', D, [['refined', 2], ['restrict', [0, 1, 2, 5, 6, 9, 12]], ['refined_marked', [3]]])),
+        ('hist', H('tri', dict(T2, kind='quad'), [['to_meshtri'], ['refined_marked', [1]]])),
+        ('hist', H('tri', dict(T2, kind='quad'), [['to_meshtri_x']])),
+        ('hist-oriented', H('tri', D, [['refined', 1], ['oriented']])),
+        ('hist', H('line', {'init': 'tensor', 'axes': [[0, 1, 3]]}, [['refined_marked', [0]], ['refined', 1]])),
+        ('hist', H('quad', T2, [['refined', 1], ['mirrored', 1]])),
+        ('hist', H('tet', D, [['refined_marked', [0]]])),
+        ('hist', H('tet', {'init': 'tensor', 'kind': 'hex', 'axes': [[0, 1], [0, 1], [0, 2]]}, [['to_meshtet']])),
+        ('hist', H('hex', {'init': 'tensor', 'axes': [[0, 1, 2], [0, 1], [0, 1]]}, [['mirrored', 2]])),
+    ]
+    if thorough:
+        hs += [
+            ('hist', H('tri', D, [['refined', 1], ['refined_marked', [0, 1, 2]], ['refined_marked', [4, 5]], ['refined', 1]])),
+            ('hist', H('tri', {'init': 'sqsymmetric'}, [['refined', 1], ['refined_marked', [0, 7, 11]], ['mirrored', 1]])),
+            ('hist', H('tet', D, [['refined', 1], ['refined_marked', [0, 5]]])),
+            ('hist', H('tet', D, [['refined_marked', [0]], ['refined_marked', [2]], ['mirrored', 0]])),
+            ('hist', H('quad', T2, [['refined', 1], ['restrict', [0, 1, 2, 5]]])),
+        ]
+    return [(fam, DC.history_rec(h)) for fam, h in hs]
+
+
+def composite_basis_recipes(rng, thorough):
+    """2-, 3- and 4-part composites of different sizes: CompositeBasis(b0, b1, ...), b0 * b1, (b0 * b1) is not nested by
+    the library, b0 @ b1 (equal_dofnum); parts on one mesh, on different meshes with equally many cells, facet bases."""
+    C = DC.C
+    tri = DC.mesh_rec('tri', *U.tri_lattice(2, 2, (0, 1, 1, 0)))
+    tri2 = DC.mesh_rec('tri', *U.tri_lattice(2, 2, (1, 0, 0, 1)))
+    quad = DC.mesh_rec('quad', *U.quad_grid(3, 2))
+    tet = DC.mesh_rec('tet', *U.tet_cubes(1, 6))
+    line = DC.mesh_rec('line', *U.line_points([0, 1, 3, 4, 6]))
+    hexm = DC.mesh_rec('hex', *U.hex_grid(2, 1, 1))
+    P = lambda m, e, b='cell', **kw: dict({'mesh': m, 'elem': e, 'basis': b}, **kw)
+    out = []
+
+    def add(parts, how='ctor', equal=0):
+        out.append({'driver': 'compbasis', 'family': 'compbasis', 'mesh': parts[0]['mesh'], 'parts': parts, 'how': how,
+                    'equal': equal, 'intorder': 3})
+    add([P(tri, C('ElementTriP2')), P(tri, C('ElementTriP1'))], how='mul')
+    add([P(tri, C('ElementTriP2')), P(tri, C('ElementTriP1')), P(tri, C('ElementTriP0'))])
+    add([P(tri, C('ElementTriP1')), P(tri, {'vec': C('ElementTriP2')}), P(tri, C('ElementTriP0')), P(tri, C('ElementTriCR'))])
+    add([P(tri, C('ElementTriP0')), P(tri, C('ElementTriP2')), P(tri2, C('ElementTriP1'))])          # two meshes
+    add([P(quad, C('ElementQuad2')), P(quad, C('ElementQuad1')), P(quad, C('ElementQuad0'))])
+    add([P(tet, C('ElementTetP1')), P(tet, C('ElementTetP2')), P(tet, C('ElementTetP0')), P(tet, C('ElementTetP1'))])
+    add([P(line, C('ElementLineP2')), P(line, C('ElementLineP1')), P(line, C('ElementLineP0'))])
+    add([P(hexm, C('ElementHex1')), P(hexm, C('ElementHex0')), P(hexm, C('ElementHex2'))])
+    add([P(tri, C('ElementTriP2')), P(tri, C('ElementTriP2'))], how='matmul', equal=1)
+    add([P(tri, C('ElementTriP1')), P(tri, C('ElementTriP1')), P(tri, C('ElementTriP1'))], equal=1)
+    add([P(tri, C('ElementTriP2'), 'facet'), P(tri, C('ElementTriP1'), 'facet'), P(tri, C('ElementTriP0'), 'facet')])
+    add([P(tri, C('ElementTriP1'), 'ifacet', side=0), P(tri, C('ElementTriP1'), 'ifacet', side=1),
+         P(tri, C('ElementTriP2'), 'ifacet', side=0)])
+    add([P(quad, C('ElementQuad1'), 'subset', ids=[0, 2, 3]), P(quad, C('ElementQuad2'), 'subset', ids=[0, 2, 3]),
+         P(quad, C('ElementQuad0'), 'subset', ids=[0, 2, 3])])
+    if thorough:
+        add([P(tet, {'vec': C('ElementTetP2')}), P(tet, C('ElementTetP1')), P(tet, C('ElementTetP0'))])
+        add([P(quad, C('ElementQuad2')), P(quad, C('ElementQuad2')), P(quad, C('ElementQuad2')), P(quad, C('ElementQuad2'))],
+            equal=1)
+        add([P(tet, C('ElementTetP2'), 'facet'), P(tet, C('ElementTetP1'), 'facet'), P(tet, C('ElementTetP2'), 'facet')])
+        add([P(hexm, C('ElementHex2')), P(hexm, C('ElementHex1')), P(hexm, C('ElementHex1')), P(hexm, C('ElementHex0'))])
+    return out
+
+
+def exec_compbasis(rec):
+    """Numbering of a CompositeBasis and of its parts; for cell bases over whole meshes also a block mass matrix."""
+    def call():
+        from skfem.assembly import CellBasis, FacetBasis, InteriorFacetBasis
+        from skfem.assembly.basis.composite_basis import CompositeBasis
+        io = rec.get('intorder', 3)
+        meshes = {}
+        bases = []
+        for p in rec['parts']:
+            key = json.dumps(p['mesh'], sort_keys=True)
+            if key not in meshes:
+                meshes[key] = DC.make_mesh(p['mesh'])
+            m = meshes[key]
+            e = DC.build_element(p['elem'])
+            kind = p.get('basis', 'cell')
+            with warnings.catch_warnings():
+                warnings.simplefilter('ignore')
+                if kind == 'cell':
+                    b = CellBasis(m, e, intorder=io)
+                elif kind == 'subset':
+                    b = CellBasis(m, e, intorder=io, elements=np.array(p['ids'], dtype=np.int64))
+                elif kind == 'facet':
+                    b = FacetBasis(m, e, intorder=io)
+                else:
+                    b = InteriorFacetBasis(m, e, intorder=io, side=int(p.get('side', 0)))
+            bases.append(b)
+        if rec['how'] == 'mul':
+            cb = bases[0] * bases[1]
+        elif rec['how'] == 'matmul':
+            cb = bases[0] @ bases[1]
+        else:
+            cb = CompositeBasis(*bases, equal_dofnum=bool(rec['equal']))
+        whole = int(all(p.get('basis', 'cell') == 'cell' for p in rec['parts']))
+        evs = [{'a': 'CompositeBasis', 'err': '', 'equal': int(rec['equal']), 'whole': whole, 'N': int(cb.N),
+                'cell': DC.table(cb.element_dofs),
+                'parts': [{'N': int(b.N), 'cell': DC.table(b.element_dofs)} for b in bases]}]
+        if whole:
+            with warnings.catch_warnings():
+                warnings.simplefilter('ignore')
+                A = _masslike().assemble(cb)
+            r, c = A.nonzero()
+            m0 = bases[0].mesh
+            nt = m0.t.shape[1]
+            tab = DC.table(cb.element_dofs)
+            evs.append({'a': 'Matrix', 'err': '', 'mode': 'cells', 'cells': list(range(1, nt + 1)), 'facets': [],
+                        't2f': ids(m0.t2f), 'test': tab, 'trial': tab, 'Ntest': int(cb.N), 'Ntrial': int(cb.N),
+                        'shape': [int(A.shape[0]), int(A.shape[1])], 'cover': 1,
+                        'nz': [[int(a), int(b)] for a, b in zip(r, c)]})
+        return evs
+    evs, err = guarded(call, 120)
+    if err:
+        evs = [{'a': 'CompositeBasis', 'err': err, 'equal': 0, 'whole': 0, 'N': 0, 'cell': [], 'parts': []}]
+    return evs
+
+
 def generate(ctx):
     rng = np.random.default_rng(ctx.seed + 40)
     thorough = ctx.tier == 'thorough'
@@ -234,6 +381,13 @@ def generate(ctx):
             recs.append(dict(base, sub={'mode': 'all'}))
             recs.append(dict(base, sub={'mode': 'cells',
                                         'ids': sorted(rng.choice(nt, max(1, nt // 3), replace=False).tolist())}))
+    # --- meshes reached through operation histories x elements with several DOFs per facet ordered along the facet
+    for fam, mrec in history_meshes(thorough):
+        kind = mrec['kind']
+        recs.append({'driver': 'number', 'family': fam, 'via': 'basis', 'drift': 1, 'mesh': mrec,
+                     'elems': DIRECTED_ELEMS[kind]})
+    # --- CompositeBasis numberings (several bases glued)
+    recs += composite_basis_recipes(rng, thorough)
     # --- Matrix events
     for kind in by_kind:
         cat = DC.catalogue(kind)
@@ -285,6 +439,8 @@ def generate(ctx):
 def _key(rec):
     if rec['driver'] == 'number':
         return [json.dumps([rec['mesh'], s], sort_keys=True) for s in rec['elems']]
+    if rec['driver'] == 'compbasis':
+        return [json.dumps([rec['parts'], rec['how'], rec['equal']], sort_keys=True)]
     return [json.dumps([rec['mesh'], rec['test'], rec['trial'], rec['sub']], sort_keys=True)]
 
 
